@@ -117,6 +117,45 @@ def build(tier, seed, exclude):
             err = _rules_rt(_RTASK{d}, _RSPEC{d}, {raw})
             return T.fail(err) if err else True
         """, timeout=to)
+    # optional (nullable) fields with and without a default: "mandatory but nullable" must survive the round trip
+    g.raw("""
+    import typing as ty
+    from pydra.compose import python as _py, shell as _sh
+    def _nullable_defs(kind, d0, d1, d2):
+        mk = _py.arg if kind == 0 else _sh.arg
+        def fld(tp, has_default, **kw):
+            return mk(type=tp, **(dict(default=None) if has_default else {}), **kw)
+        if kind == 0:
+            def fn(fa, fb, fc):
+                return 1
+            return _py.define(fn, inputs={"fa": fld(ty.Optional[str], d0), "fb": fld(ty.Optional[int], d1), "fc": fld(ty.Optional[float], d2)},
+                              outputs={"out": int}, name="Nul%d%d%d" % (d0, d1, d2))
+        return _sh.define("prog", inputs={"fa": fld(ty.Optional[str], d0, argstr="-a"), "fb": fld(ty.Optional[int], d1, argstr="-b"),
+                                          "fc": fld(ty.Optional[float], d2, argstr="-c")}, name="NulS%d%d%d" % (d0, d1, d2))
+    def _nullable_rt(kind, d0, d1, d2, given):
+        cls = _nullable_defs(kind, d0, d1, d2)
+        cls2 = structure(unstructure(cls))
+        err = _fields_equal(cls, cls2)
+        T.reach()
+        if err:
+            return "optional fields with defaults %s: re-created class differs: %s" % ((d0, d1, d2), err)
+        kw = {n: v for n, v, g in (("fa", "x", given & 1), ("fb", 2, given & 2), ("fc", 0.5, given & 4)) if g}
+        out = []
+        for c in (cls, cls2):
+            try:
+                t = c(**kw)
+                t._check_resolved() if hasattr(t, "_check_resolved") else None
+                out.append(("ok", sorted((k, v) for k, v in attrs.asdict(t, recurse=False).items() if k in ("fa", "fb", "fc"))))
+            except Exception as e:
+                out.append(("raises", type(e).__name__))
+        if out[0] != out[1]:
+            return "optional fields with defaults %s, given %s: original %r, re-created %r" % ((d0, d1, d2), sorted(kw), out[0], out[1])
+        return None
+    """)
+    g.cond("h_nullable_without_default", "kind: int, d0: bool, d1: bool, d2: bool, given: int", ["0 <= kind <= 1 and 0 <= given < 8"], """
+        err = _nullable_rt(T.real(kind), T.real(d0), T.real(d1), T.real(d2), T.real(given))
+        return T.fail(err) if err else True
+    """, timeout=to * 3)
     g.cond("twin_c32", "fa: bool", ["True"], """
         specs = [dict(kind="flag", argstr="-a", name="fa", position=None)]
         err = _shell_rt(SD.make_task(specs, name="Tw"), specs, [fa])
